@@ -115,6 +115,19 @@ theorem C14_claim_below_unit (r : RewardSt) (self : Addr) (tk dp : Res Addr) (bb
   rw [if_pos (Nat.div_eq_of_lt hlt)]
   exact ⟨_, rfl⟩
 
+/-- **With no bSei holder an index update records nothing.** What has arrived stays unrecorded — the
+    whole state of the reward contract is what it was — so that the first update with holders
+    distributes it: the step of that update is (bank balance − recorded balance) per bSei, and the
+    recorded balance has not moved. -/
+theorem C14_update_without_holders_records_nothing (r r' : RewardSt) (self : Addr) (tk dp : Res Addr)
+    (bb : Denom → Nat) (sender : Addr) (ms : List Msg) (hz : r.totalBalance = 0)
+    (hx : rewardExec r self tk dp bb sender .updateGlobalIndex = .ok (r', ms)) :
+    r' = r ∧ ms = [] := by
+  simp only [rewardExec] at hx
+  exc_norm at hx
+  exc_split at hx
+  all_goals first | exact ⟨rfl, rfl⟩ | contradiction
+
 /-- an index update records exactly the contract's bank balance, so the recorded balance never
     exceeds the actual one; with no holders it records nothing and loses nothing -/
 theorem C14_update_records_bank (r r' : RewardSt) (self : Addr) (tk dp : Res Addr) (bb : Denom → Nat)
